@@ -39,6 +39,9 @@ CHECKS = {
  "C13": dict(
    text="Theorems C13_frozen (closed outputs never change, any later history), C13_stream (a rotation leaves the record sequence and AEC totals untouched; without export the buffered block stays buffered), C13_empty_output, C13_restart, C13_header_has_all_params. Tie: correspondence - generated API histories run through the real CdnsExporter/CdnsReader (memfd outputs, ASan/UBSan) and through the extracted model: every return value, counter, output byte (address-event arrays order-canonicalised) and the reader's record dump compared; independent Python oracle (specification-level exporter simulation + strict RFC 8949/8618 parser) names the failing history.",
    ref='DESIGN.md 3.13', note='Same-kind rotations (fd to fd); completeness of each closed document is checked by the independent parser. Mixed-kind rotation (F16) is outside the modelled alphabet.'),
+ "C19": dict(
+   text="Theorems over a reference-level table model (items in heap cells, index keys that are references, freed cells, outcome UAF): C19_find_refines (under the ownership invariant a lookup never touches freed memory and equals the value-level lookup), C19_own_refs (de-duplicating adds keep the invariant and refine the value-level add), C19_value_copy (copy: same content, storage of its own, source unchanged), C19_destroy_other, C19_copy_independent (copy, destroy the source, look up: result of a fresh table with that content); C19_shallow_copy_refuted exhibits the UAF the implicit member-wise copy produced. Tie: correspondence under ASan on histories over up to four CdnsBlock / CdnsBlockRead objects (copy-/move-construct, copy-/move-assign, 'block = reader.read_block(eof)', destroy / clear / refill the source, de-duplicating adds, serialisation, generic reads) against the value-level model; oracle on the implementation alone: every observable result equals that on a block rebuilt from scratch; read blocks must aggregate address events.",
+   ref="DESIGN.md 3.19", note="The heap model abstracts std::deque / std::unordered_map to 'stable cells + list of key references'; real allocator behaviour is observed by ASan, not proved (partial w.r.t. memory safety of the containers themselves)."),
  "C17": dict(
    text="Theorems C17_offset_exact / C17_add_inverse / C17_compare_lt / C17_compare_le / C17_refuse / C17_rate0 / C17_no_ub / C17_block / C17_block_offsets over a model of Timestamp in Z with the code's int64 arithmetic made explicit (an overflowing signed operation is the distinguished outcome TUB): for every tick rate 1..10^9, all instants below 2^63 ticks and all int64 offsets (INT64_MIN included). C17_block is an invariant by induction over every add history of a block (timed/untimed records in any order). Tie: correspondence (same commands through the real Timestamp / CdnsBlock classes under UBSan and through the extracted model) + Python big-integer oracle.",
    ref="DESIGN.md 3.17", note="Hypothesis of the theorems: ticks_per_second <= 10^9 and instants < 2^63 ticks (the 'representable range' of the property)."),
